@@ -6,6 +6,11 @@ Ops (one text name each):
               DataFrame.description reports, and what that code resolves back to
                                                               vs  TypeName.declare / typeCode / fromName
 
+  column_enum  : FlatColumn(name="c", type=OrsoTypes.<member>, element_type=…, precision=…, scale=…, length=…)
+  column_arrow : FlatColumn.from_arrow(pyarrow.field("c", <type>))
+                 -> the five attributes, the reported type code and what it resolves back to; the model gets
+                    the observed attributes (op `code`: TypeName.typeCode / fromName)
+
 Oracle (evaluated on the implementation's own outputs, never on the model's):
   total     any text: a well-formed 5-tuple comes back, or ValueError - nothing else;
   exact     a name the generator built as a well-formed type name (label `expect`, re-validated from
@@ -14,7 +19,14 @@ Oracle (evaluated on the implementation's own outputs, never on the model's):
   reject    DECIMAL(p,s) with parameters outside 0<=s<=p<=38 and ARRAY<T> with T not a scalar type
             name are rejected (with ValueError, by `total`);
   column    a column declared with a well-formed name carries the parameters, and its reported
-            type code resolves back to the same type (and the same precision/scale/element type).
+            type code resolves back to the same type (and the same precision/scale/element type);
+  typed     EVERY column that could be declared and is typed (declared by any name that resolves -
+            aliases LIST/NUMERIC/BSON/bare ARRAY included, any letter case -, by an OrsoTypes member
+            with or without element type / precision / scale / length, or from an Arrow field) reports
+            a type code (None is never acceptable) that resolves back, through from_name, to the
+            column's type, with the column's precision/scale (DECIMAL) and element type (ARRAY, when
+            the column has one).  Not covered: untyped columns (_MISSING_TYPE / 0) and columns whose
+            element type is itself ARRAY, DECIMAL or _MISSING_TYPE (not well-formed descriptions).
 
 The model is ASCII.  For non-ASCII names only `total` is evaluated (Python's str.upper, \\d, \\s, \\w
 are Unicode-aware: 'ınteger' and 'DECIMAL(١٠,٢)' resolve, consistently with the statement); when the
@@ -158,16 +170,11 @@ def impl_from_name(name):
     return ["ok", _ty(t), _int(length), _int(precision), _int(scale), _elem(elem)]
 
 
-def impl_column(name):
+def _describe(c):
+    """[the five attributes, type code, what the code resolves back to (, why there is no code)]"""
     from orso import DataFrame
-    from orso.schema import FlatColumn, RelationSchema
+    from orso.schema import RelationSchema
 
-    try:
-        with warnings.catch_warnings():
-            warnings.simplefilter("ignore")
-            c = FlatColumn(name="c", type=name)
-    except Exception as e:
-        return [["err", _cls(e)], None, None]
     col = ["ok", _ty(c.type), _int(c.length), _int(c.precision), _int(c.scale), _elem(c.element_type)]
     try:
         with warnings.catch_warnings():
@@ -175,10 +182,84 @@ def impl_column(name):
             df = DataFrame(rows=[], schema=RelationSchema(name="t", columns=[c]))
             code = df.description[0][1]
     except Exception as e:
-        return [col, None, None, _cls(e)]
+        return [col, None, None, "description raised " + _cls(e)]
     if not isinstance(code, str):
         return [col, None, None, "type code %r" % (code,)]
     return [col, code, impl_from_name(code)]
+
+
+def impl_column(name):
+    from orso.schema import FlatColumn
+
+    try:
+        with warnings.catch_warnings():
+            warnings.simplefilter("ignore")
+            c = FlatColumn(name="c", type=name)
+    except Exception as e:
+        return [["err", _cls(e)], None, None]
+    return _describe(c)
+
+
+def impl_column_enum(case):
+    from orso.schema import FlatColumn
+    from orso.types import OrsoTypes
+
+    kw = {"name": "c", "type": OrsoTypes[case["type"]]}
+    if case.get("element_type") is not None:
+        kw["element_type"] = OrsoTypes[case["element_type"]]
+    for k in ("precision", "scale", "length"):
+        if case.get(k) is not None:
+            kw[k] = case[k]
+    try:
+        with warnings.catch_warnings():
+            warnings.simplefilter("ignore")
+            c = FlatColumn(**kw)
+    except Exception as e:
+        return [["err", _cls(e)], None, None]
+    return _describe(c)
+
+
+def arrow_type(spec):
+    """A small, closed language of Arrow types: atoms, decimal128(p,s), list<T>, large_list<T>, struct."""
+    import pyarrow as pa
+
+    atoms = {"int8": pa.int8, "int32": pa.int32, "int64": pa.int64, "uint16": pa.uint16, "float32": pa.float32,
+             "float64": pa.float64, "bool": pa.bool_, "string": pa.string, "large_string": pa.large_string,
+             "binary": pa.binary, "date32": pa.date32, "date64": pa.date64, "null": pa.null}
+    if spec in atoms:
+        return atoms[spec]()
+    if spec == "timestamp":
+        return pa.timestamp("us")
+    if spec == "time32":
+        return pa.time32("ms")
+    if spec == "time64":
+        return pa.time64("us")
+    if spec == "duration":
+        return pa.duration("us")
+    if spec == "struct":
+        return pa.struct([("a", pa.int64())])
+    m = re.fullmatch(r"decimal128\((\d+),(\d+)\)", spec)
+    if m:
+        return pa.decimal128(int(m.group(1)), int(m.group(2)))
+    m = re.fullmatch(r"(list|large_list)<(.*)>", spec)
+    if m:
+        return (pa.list_ if m.group(1) == "list" else pa.large_list)(arrow_type(m.group(2)))
+    raise InfraError("bad arrow type spec %r" % (spec,))
+
+
+def impl_column_arrow(case):
+    import pyarrow as pa
+
+    from orso.schema import FlatColumn
+
+    f = pa.field("c", arrow_type(case["arrow"]))
+    try:
+        with warnings.catch_warnings():
+            warnings.simplefilter("ignore")
+            c = FlatColumn.from_arrow(f)
+    except Exception as e:
+        return [["err", _cls(e)], None, None]
+    return _describe(c)
 
 
 # --------------------------------------------------------------------------- oracle
@@ -280,8 +361,60 @@ def column_clause(e, out):
     return None
 
 
+NOT_COVERED_ELEMS = ("ARRAY", "DECIMAL", UNTYPED_MEMBER)
+
+
+def typed_column_clause(out):
+    """Any declared, typed column: a type code is reported and resolves back to the same type/parameters."""
+    col = out[0]
+    if col[0] != "ok":
+        return None
+    _, t, length, precision, scale, elem = col
+    if not isinstance(t, str) or t == UNTYPED_MEMBER:
+        return None  # untyped column (or the int 0 marker): not covered
+    if elem is not None and (not isinstance(elem, str) or elem in NOT_COVERED_ELEMS):
+        return None  # not a well-formed description: not covered
+    if out[1] is None:
+        return "DataFrame.description reports no type code for a typed column (%s)" % (out[3] if len(out) > 3 else "None")
+    back = out[2]
+    if back[0] != "ok":
+        return "reported type code of a typed column does not resolve"
+    if back[1] != t:
+        return "reported type code of a typed column resolves to another type"
+    if t == "DECIMAL" and isinstance(precision, int) and isinstance(scale, int) and 0 <= scale <= precision <= MAX_P \
+            and (back[3], back[4]) != (precision, scale):
+        return "reported type code resolves to other DECIMAL parameters"
+    if t == "ARRAY" and elem is not None and back[5] != elem:
+        return "reported type code resolves to another element type"
+    return None
+
+
+def enum_clause(case, out):
+    """A column declared with an OrsoTypes member carries what it was given."""
+    col = out[0]
+    if col[0] != "ok":
+        return "column with an OrsoTypes member as type could not be declared"
+    _, t, length, precision, scale, elem = col
+    if t != case["type"]:
+        return "column does not carry the declared type"
+    if case.get("element_type") is not None and elem != case["element_type"]:
+        return "column does not carry the declared element type"
+    if case.get("precision") is not None and precision != case["precision"]:
+        return "column does not carry the declared precision/scale"
+    if case.get("scale") is not None and scale != case["scale"]:
+        return "column does not carry the declared precision/scale"
+    if case.get("length") is not None and length != case["length"]:
+        return "column does not carry the declared length"
+    return typed_column_clause(out)
+
+
 def oracle(case, out):
-    name, op = case["name"], case["op"]
+    op = case["op"]
+    if op == "column_enum":
+        return enum_clause(case, out)
+    if op == "column_arrow":
+        return typed_column_clause(out)
+    name = case["name"]
     e = case.get("expect")
     if op == "from_name":
         c = total_clause(out)
@@ -292,20 +425,33 @@ def oracle(case, out):
         return None
     # column
     if e is not None and not e["kind"].startswith("reject"):
-        return column_clause(e, out)
+        return column_clause(e, out) or typed_column_clause(out)
     if e is not None and out[0][0] == "ok":
         return "a column was declared with a name the statement says is always rejected"
     if out[1] is not None:
         c = total_clause(out[2])
         if c:
             return "type code: " + c
-    return None
+    return typed_column_clause(out)
 
 
 # --------------------------------------------------------------------------- evaluation
 
 
 def valid_case(c):
+    if isinstance(c, dict) and c.get("op") == "column_enum":
+        if c.get("type") not in BASE + [UNTYPED_MEMBER]:
+            return False
+        if c.get("element_type") is not None and c["element_type"] not in BASE + [UNTYPED_MEMBER]:
+            return False
+        return all(c.get(k) is None or (isinstance(c[k], int) and not isinstance(c[k], bool) and c[k] >= 0)
+                   for k in ("precision", "scale", "length"))
+    if isinstance(c, dict) and c.get("op") == "column_arrow":
+        try:
+            arrow_type(c.get("arrow"))
+            return True
+        except Exception:
+            return False
     if not isinstance(c, dict) or c.get("op") not in ("from_name", "column") or not isinstance(c.get("name"), str):
         return False
     try:
@@ -326,14 +472,53 @@ def model_name(name):
 
 
 def run_impl(c):
+    if c["op"] == "column_enum":
+        return impl_column_enum(c)
+    if c["op"] == "column_arrow":
+        return impl_column_arrow(c)
     return impl_from_name(c["name"]) if c["op"] == "from_name" else impl_column(c["name"])
 
 
-def evaluate(ctx, cases):
+def evaluate_declared(ctx, cases):
+    """column_enum / column_arrow: the implementation declares the column; the model is given the observed
+    attributes and must report the same type code and the same resolution of it."""
+    outs = [run_impl(c) for c in cases]
     idx, lines = [], []
-    for i, c in enumerate(cases):
+    for i, out in enumerate(outs):
+        col = out[0]
+        if col[0] == "ok" and all(not isinstance(x, dict) for x in col):
+            idx.append(i)
+            lines.append("C06 code " + wire.line(*col[1:]))
+    mouts = dict(zip(idx, ctx.model.batch(lines)))
+    for i, (c, out) in enumerate(zip(cases, outs)):
+        ctx.case(c, nontrivial=True)
+        ctx.hit("op:" + c["op"])
+        ctx.hit("outcome:" + (out[0][0] if out[0][0] != "err" else "err:" + out[0][1]))
+        if out[0][0] == "ok" and out[0][1] == "ARRAY" and out[0][5] is None:
+            ctx.hit("array-column-without-element-type")
+        clause = oracle(c, out)
+        m = None
+        if i in mouts:
+            ctx.hit("compared-with-model")
+            if not mouts[i].startswith("ok "):
+                raise InfraError("model rejected case %r: %r" % (c, mouts[i]))
+            m = wire.dec_all(mouts[i][3:])
+        if clause is not None:
+            ctx.fail(c, clause, impl=out, model=m)
+        elif m is not None and not wire.same(_plain(out[1:3]), _plain(m)):
+            ctx.disagree(c, out, m)
+
+
+def evaluate(ctx, cases):
+    for c in cases:
         if not valid_case(c):
             raise InfraError("generator produced an invalid case %r" % (c,))
+    declared = [c for c in cases if c["op"] in ("column_enum", "column_arrow")]
+    if declared:
+        evaluate_declared(ctx, declared)
+        cases = [c for c in cases if c["op"] not in ("column_enum", "column_arrow")]
+    idx, lines = [], []
+    for i, c in enumerate(cases):
         mn = model_name(c["name"])
         if mn is not None:
             idx.append(i)
@@ -350,6 +535,8 @@ def evaluate(ctx, cases):
         ctx.hit("outcome:" + (first[0] if first[0] != "err" else "err:" + first[1]))
         if not is_ascii(name) and first[0] == "ok":
             ctx.hit("unicode-name-resolves")
+        if c["op"] == "column" and first[0] == "ok" and first[1] == "ARRAY" and first[5] is None:
+            ctx.hit("array-column-without-element-type")
         clause = oracle(c, out)
         m = None
         if i in mouts:
@@ -498,6 +685,63 @@ def exhaustive_cases(ctx):
                   "DECIMAL(1%s2)" % ch, "DECIMAL(10,2%s)" % ch, "DECIMAL(10,2)%s" % ch, "VARCHAR[1%s]" % ch, "VARCHAR[12]%s" % ch,
                   "VARCHAR[%s]" % ch, "BLOB[%s7]" % ch, "BLOB[7%s" % ch, "INTEGER%s" % ch, "%sINTEGER" % ch, "DEC%sIMAL" % ch, ch, ch + ch):
             yield from labelled(n)
+    # 6. columns declared with an OrsoTypes member (with / without element type, precision, scale, length)
+    yield from enum_cases(thorough)
+    # 7. columns built from Arrow fields (FlatColumn.from_arrow), incl. lists of unmapped value types
+    for spec in ARROW_SPECS:
+        yield {"op": "column_arrow", "arrow": spec}
+
+
+ARROW_SPECS = ["int8", "int32", "int64", "uint16", "float32", "float64", "bool", "string", "large_string", "binary", "date32",
+               "date64", "null", "timestamp", "time32", "time64", "duration", "struct", "decimal128(10,2)", "decimal128(38,0)",
+               "decimal128(38,38)", "decimal128(1,0)", "decimal128(5,5)"]
+ARROW_SPECS += ["list<%s>" % t for t in ARROW_SPECS] + ["large_list<int64>", "large_list<struct>", "large_list<decimal128(10,2)>",
+                                                        "list<list<int64>>", "list<list<decimal128(10,2)>>", "list<large_list<string>>"]
+
+
+def enum_case(t, **kw):
+    c = {"op": "column_enum", "type": t}
+    c.update({k: v for k, v in kw.items() if v is not None})
+    return c
+
+
+def enum_cases(thorough):
+    """Every OrsoTypes member passed as the enum, with and without element type / precision / scale / length."""
+    import decimal
+
+    members = BASE + [UNTYPED_MEMBER]
+    for t in members:
+        yield enum_case(t)
+        for e in members:
+            if t == "ARRAY" or thorough or e in ("VARCHAR", "INTEGER"):
+                yield enum_case(t, element_type=e)
+        for n in (0, 1, 12, 255, 65535, 10**20):
+            if t in ("VARCHAR", "BLOB", "ARRAY") or n == 12:
+                yield enum_case(t, length=n)
+    for e in members:
+        yield enum_case("ARRAY", element_type=e, length=3)
+    # DECIMAL: every in-range (p, s); p alone (scale defaults to int(0.75 p)); s alone (precision defaults to the context's)
+    for p in range(MAX_P + 1):
+        yield enum_case("DECIMAL", precision=p)
+        for s in range(p + 1):
+            yield enum_case("DECIMAL", precision=p, scale=s)
+    for s in range(min(decimal.getcontext().prec, MAX_P) + 1):
+        yield enum_case("DECIMAL", scale=s)
+
+
+def random_declared(rng):
+    members = BASE + [UNTYPED_MEMBER]
+    r = rng.random()
+    if r < 0.3:
+        return {"op": "column_arrow", "arrow": rng.choice(ARROW_SPECS)}
+    if r < 0.6:
+        return enum_case("ARRAY", element_type=rng.choice(members + [None, None, None]),
+                         length=rng.choice([None, None, 0, 7]))
+    if r < 0.8:
+        p = rng.randint(0, MAX_P)
+        return enum_case("DECIMAL", precision=p, scale=rng.choice([None, rng.randint(0, p)]))
+    return enum_case(rng.choice(members), element_type=rng.choice([None, None] + members),
+                     length=rng.choice([None, None, 0, 1, 300, 2**31]))
 
 
 SEEDS = None
@@ -583,6 +827,9 @@ def random_name(ctx):
 def random_cases(ctx, n):
     out = []
     for i in range(n):
+        if i % 25 == 24:
+            out.append(random_declared(ctx.rng))
+            continue
         name = random_name(ctx)
         try:
             name.encode("utf-8")
@@ -638,8 +885,9 @@ def run(ctx):
     ctx.exhaustive = False
     ctx.note("exhaustive_scope", "every letter-case pattern of the %d base names; aliases; DECIMAL(p,s) for (p,s) in 0..45 x 0..45; "
              "VARCHAR[n]/BLOB[n] for n in 0..300 and %d boundary widths up to the int() digit limit; ARRAY<T> for %d element texts; "
-             "every ASCII character in 18 pattern positions (%d cases), then random" % (len(BASE), len(boundary_widths()) - 301,
-                                                                                         len(BASE + ALIASES + ELEMENTS_EXTRA), total))
+             "every ASCII character in 18 pattern positions; every OrsoTypes member declared as the enum with/without element type "
+             "and length, every in-range (precision, scale); %d Arrow field types (%d cases), then random"
+             % (len(BASE), len(boundary_widths()) - 301, len(BASE + ALIASES + ELEMENTS_EXTRA), len(ARROW_SPECS), total))
     n_random = ctx.scale(50000, 1000000)
     done = 0
     while done < n_random and ctx.time_left() > 5:
